@@ -100,6 +100,28 @@ let () =
             | _ -> verdict_string toks (loracle lops (List.map parse_obs outs)) in
           Mlutil.print_model (List.map tok m) verdict
         end
+    | "scan", [n; _; k] ->
+        (* model: the scanner is in RScan (n-k) when the context is cancelled; count its steps until it has left
+           the per-mailbox loop — each such step visits one mailbox *)
+        let n_i = int_of_string n and k_i = int_of_string k in
+        let rec visits r acc =
+          if acc > n_i + 2 then acc else
+          match r with
+          | RScan j when int_of_nat j > 0 -> visits (rsteps true (nat_of_int n_i) (nat_of_int 1) r) (acc + 1)
+          | _ -> acc in
+        let v = if k_i >= n_i then 0 else visits (RScan (nat_of_int (n_i - k_i))) 0 in
+        let m = ["visited=" ^ string_of_int v; "returned"] in
+        (* oracle: after cancellation at most the callback under way runs (exactly one when the pass was not over) *)
+        let verdict = match outs with
+          | [vis; r] ->
+              let got = (try int_of_string (String.sub vis 8 (String.length vis - 8)) with _ -> -1) in
+              if r <> "returned" then "fail:retention-scan-does-not-return"
+              else if got < 0 then "fail:observation-does-not-fit"
+              else if got > 1 then Printf.sprintf "fail:retention-scan-visited-%d-more-mailboxes-after-cancellation" got
+              else if k_i < n_i && got <> 1 then "fail:cancellation-point-not-reached"
+              else "ok"
+          | _ -> "fail:observation-does-not-fit" in
+        Mlutil.print_model m verdict
     | "ret", [period; n; whn] ->
         let n_i = int_of_string n in
         let enabled = period <> "0s" in
